@@ -18,6 +18,8 @@ def make_oracle(lim):
         bad = []
         tk = Tracker()
         rules = {}        # cid -> number of acknowledged rules
+        texts = {}        # cid -> their texts, oldest first
+        unsure_rules = set()
         uid = {}
         slots = []        # (caller, callee, serial): calls delivered and not yet answered
         for i, (per, closed) in enumerate(tr.steps):
@@ -43,14 +45,29 @@ def make_oracle(lim):
                 rep = [l for l in mine if fld(l, "rs") == fld(sent, "ser") and hexname(fld(l, "sender")) == BUS and fld(l, "t") in ("2", "3")]
                 ok = [l for l in rep if fld(l, "t") == "2"]
                 err = [hexname(fld(l, "err")) for l in rep if fld(l, "t") == "3"]
+                if member in ("AddMatch", "RemoveMatch"):
+                    b_ = fld(sent, "body") or ""
+                    try:
+                        rtext = bytes.fromhex(b_[2:]).decode("latin1") if b_.startswith("s:") and b_ != "s:-" else ""
+                    except ValueError:
+                        rtext = "?"
                 if member == "AddMatch" and actor in tk.names and hexname(fld(sent, "iface")) in (BUS, None):
                     if ok and not err:
                         rules[actor] = rules.get(actor, 0) + 1
-                        if "rules" in lim and rules[actor] > lim["rules"]:
+                        texts.setdefault(actor, []).append(rtext)
+                        if "rules" in lim and rules[actor] > lim["rules"] and actor not in unsure_rules:
                             bad.append((None, "step %d: connection %d now has %d match rules, limit %d" % (i, actor, rules[actor], lim["rules"])))
+                    elif ERR + "LimitsExceeded" in err and "rules" in lim and rules.get(actor, 0) < lim["rules"] and len(rtext) <= 1024 and actor not in unsure_rules:
+                        # (the count kept here is never below the bus's: rules the bus drops on its own are taken off below)
+                        bad.append((None, "step %d: AddMatch of connection %d refused with LimitsExceeded although it holds %d rules, limit %d: capacity "
+                                    "that was given back is not usable" % (i, actor, rules.get(actor, 0), lim["rules"])))
                 elif member == "RemoveMatch" and actor in tk.names and hexname(fld(sent, "iface")) in (BUS, None):
                     if ok and not err:
                         rules[actor] = max(0, rules.get(actor, 0) - 1)
+                        if rtext in texts.get(actor, []):
+                            ts = texts[actor]; ts.reverse(); ts.remove(rtext); ts.reverse()
+                        elif texts.get(actor):
+                            unsure_rules.add(actor)        # removed by a text that is merely equal as a rule: which one went is not known here
                 elif member == "Hello" and actor not in tk.names and hexname(fld(sent, "iface")) in (BUS, None):
                     if ok:
                         if "completed" in lim and n_named_before + 1 > lim["completed"]:
@@ -83,10 +100,24 @@ def make_oracle(lim):
                             slots.remove(s)
             gone_now = set(closed) | ({op[1]} if op[0] == "close" else set())
             slots = [s for s in slots if s[0] not in gone_now and s[1] not in gone_now]
+            # a connection that leaves with rules of its own takes with it every rule of others that names its unique name
+            # (the name is never used again): those rules no longer count against their owners
+            gone_conns = (set(closed) | ({op[1]} if op[0] == "close" else set())) & set(tk.names)
+            for g in gone_conns:
+                gname = tk.names.get(g)
+                if gname and rules.get(g, 0) > 0:
+                    pat = re.compile(r"(?:^|,)\s*(?:sender|destination)='%s'\s*(?:,|$)" % re.escape(gname))
+                    for c2 in list(texts):
+                        if c2 == g:
+                            continue
+                        keep = [t_ for t_ in texts[c2] if not pat.search(t_)]
+                        dropped = len(texts[c2]) - len(keep)
+                        if dropped:
+                            texts[c2] = keep; rules[c2] = max(0, rules.get(c2, 0) - dropped)
             tk.after(i, tr)
             for c in list(rules):
                 if c not in tk.live:
-                    rules.pop(c)
+                    rules.pop(c); texts.pop(c, None)
             if "names" in lim:
                 for c in tk.live:
                     if c in tk.names:
@@ -109,6 +140,8 @@ def run(ctx):
     L = 80 if ctx.quick() else 140
     for label, lim, kw, pol, salt in [
             ("rules-limit", {"rules": 3}, {"weights": W_RULES, "max_conns": 4, "rule_uniques": False}, busdiff.SESSION, 11),
+            # rules naming other connections' unique names: the bus drops them when that connection leaves, and the room is free again
+            ("rules-limit-unique-names", {"rules": 3}, {"weights": dict(W_RULES, addmatch=34, close=9, connect=8, hello=8), "max_conns": 4, "rule_uniques": True}, busdiff.SESSION, 16),
             ("names-limit", {"names": 3}, {"weights": W_NAMES, "max_conns": 4}, busdiff.SESSION, 12),
             ("connections-limit", {"completed": 3, "peruser": 2}, {"weights": W_CONNS, "max_conns": 6, "uids": (0, 0, 1000, 2)}, ANYUSER, 13),
             ("replies-limit", {"replies": 2}, {"weights": W_CALLS, "max_conns": 4}, busdiff.SESSION, 14),
